@@ -359,9 +359,13 @@ def rule_siblings(ctx, repo, ci):
     for lp_ in [n for n in walk_no_nested(ins.node) if isinstance(n, ast.For)]:
         if not any(x in sets for x in ast.walk(lp_)):
             continue
-        early = [x for x in ast.walk(lp_) if isinstance(x, (ast.Break, ast.Continue, ast.Return))]
+        early = [x for x in ast.walk(lp_) if isinstance(x, (ast.Break, ast.Return))]
+        skips = [x for x in ast.walk(lp_) if isinstance(x, ast.Continue)]
         uncond = any(x in sets for x in lp_.body)
-        if early:
+        if skips and not early:
+            # skipping the store is harmless exactly when the bit is already set: not decided here
+            r.undecided('insert:every-index', common.site_of(ins, skips[0]), 'the loop over the hash functions skips some iterations with `continue`')
+        elif early:
             r.violated('insert:every-index', common.site_of(ins, early[0]), 'the loop over the hash functions of insert() can leave or skip with `%s` before a bit is set: the bits of the remaining '
                        'hash functions stay clear, and contains() then reports the element just inserted as absent' % norm(early[0]), sure=True)
         elif not uncond:
